@@ -8,6 +8,8 @@ import (
 	"os"
 	"os/exec"
 	"path/filepath"
+	"sort"
+	"strings"
 	"syscall"
 	"time"
 
@@ -19,13 +21,17 @@ import (
 	"verifharness/internal/hx"
 )
 
-// CLI describes a thorough-tier case that goes through the built `desync` binary.
+// CLI describes a case that goes through the built `desync` binary ($VERIF_DESYNC_BIN).
 type CLI struct {
 	Cmd      string `json:"cmd"`                 // extract | cat | untar
 	Role     string `json:"role"`                // store: the poisoned store is -s; cache: it is -c in front of a healthy -s store
 	NoRepair bool   `json:"no_repair,omitempty"` // role cache: --cache-repair=false
 	SSH      bool   `json:"ssh,omitempty"`       // role store: reached as ssh://… through the fake ssh and `desync pull`
 	N        int    `json:"n"`
+	Format   string `json:"format,omitempty"` // untar: disk | gnu-tar
+	Stdout   bool   `json:"stdout,omitempty"` // cat, untar gnu-tar: output to stdout instead of a file argument
+	Offset   int    `json:"offset,omitempty"` // cat: >0: --offset (selector)
+	Length   int    `json:"length,omitempty"` // cat: >0: --length (selector)
 }
 
 func genCLI(t *rapid.T) *CLI {
@@ -34,10 +40,25 @@ func genCLI(t *rapid.T) *CLI {
 	c.Role = rapid.SampledFrom([]string{"store", "store", "cache"}).Draw(t, "role")
 	if c.Role == "cache" {
 		c.NoRepair = rapid.IntRange(0, 2).Draw(t, "norepair") == 0
-	} else if fakessh.HavePull() {
+	} else if hx.Thorough() && fakessh.HavePull() {
 		c.SSH = rapid.IntRange(0, 3).Draw(t, "ssh") == 0
 	}
 	c.N = rapid.IntRange(1, 4).Draw(t, "n")
+	switch c.Cmd {
+	case "untar":
+		c.Format = rapid.SampledFrom([]string{"disk", "gnu-tar", "gnu-tar"}).Draw(t, "format")
+		c.Stdout = c.Format == "gnu-tar" && rapid.Bool().Draw(t, "stdout")
+	case "cat":
+		c.Stdout = rapid.Bool().Draw(t, "stdout")
+		// the whole blob (io.Copy from the index reader) twice as often as a window (io.CopyN)
+		if rapid.IntRange(0, 2).Draw(t, "window") == 0 {
+			c.Offset = rapid.IntRange(0, 1<<20).Draw(t, "offset")
+			c.Length = rapid.IntRange(0, 1<<20).Draw(t, "length")
+			if c.Offset == 0 && c.Length == 0 {
+				c.Length = 1
+			}
+		}
+	}
 	return c
 }
 
@@ -143,14 +164,45 @@ func runCLI(c Case) (o hx.Outcome) {
 		args = append(args, "-s", storeArg)
 	}
 	outPath := filepath.Join(work, "out")
+	format := ""
+	want := pd.blob
+	variant := "whole"
 	switch cl.Cmd {
 	case "extract":
 		args = append(args, idxPath, outPath)
 	case "cat":
-		args = append(args, idxPath, outPath)
+		if cl.Offset > 0 || cl.Length > 0 {
+			// a window inside the blob (a length beyond the end makes io.CopyN fail by itself)
+			off := cl.Offset % len(pd.blob)
+			if cl.Offset > 0 {
+				args = append(args, "-o", fmt.Sprint(off))
+			} else {
+				off = 0
+			}
+			want = pd.blob[off:]
+			if cl.Length > 0 {
+				l := 1 + cl.Length%len(want)
+				args = append(args, "-l", fmt.Sprint(l))
+				want = want[:l]
+			}
+			variant = "window"
+		}
+		args = append(args, idxPath)
+		if !cl.Stdout {
+			args = append(args, outPath)
+		}
 	case "untar":
-		args = append(args, "-i", "--output-format", "gnu-tar", idxPath, outPath)
+		format = "gnu-tar"
+		if cl.Format == "disk" {
+			format = "disk"
+		}
+		target := outPath
+		if format == "gnu-tar" && cl.Stdout {
+			target = "-"
+		}
+		args = append(args, "-i", "--output-format", format, idxPath, target)
 	}
+	toStdout := cl.Stdout && (cl.Cmd == "cat" || format == "gnu-tar")
 	ctx, cancel := context.WithTimeout(context.Background(), cliTimeout)
 	defer cancel()
 	cmd := exec.CommandContext(ctx, bin, args...)
@@ -160,6 +212,14 @@ func runCLI(c Case) (o hx.Outcome) {
 	var stderr bytes.Buffer
 	cmd.Stderr = &stderr
 	cmd.Stdout = &stderr
+	if toStdout {
+		of, err := os.Create(outPath)
+		if err != nil {
+			infra("%v", err)
+		}
+		defer of.Close()
+		cmd.Stdout = of
+	}
 	runErr := cmd.Run()
 	hung := ctx.Err() != nil
 
@@ -180,10 +240,27 @@ func runCLI(c Case) (o hx.Outcome) {
 			o.Fail("C03:cli:"+cl.Cmd+":cache-not-repaired", "a poisoned cache entry with cache repair on and a healthy store: the command failed (%v) — %s", runErr, where)
 		}
 	default:
-		out, rerr := os.ReadFile(outPath)
+		var out []byte
+		var rerr error
+		if format != "disk" {
+			out, rerr = os.ReadFile(outPath)
+		}
 		diff := ""
 		if rerr != nil {
 			diff = "exit status 0 but no output: " + rerr.Error()
+		} else if format == "disk" {
+			got, serr := snapshotDir(outPath)
+			var want []tarEntry
+			expectedEntries(pd.tree, "", &want)
+			for i := range want { // on disk only names, kinds, contents and link targets are compared
+				want[i].perm, want[i].uid, want[i].gid, want[i].mtime = 0, 0, 0, 0
+			}
+			sort.Slice(want, func(i, j int) bool { return want[i].name < want[j].name })
+			if serr != nil {
+				diff = "exit status 0 but the unpacked tree cannot be read: " + serr.Error()
+			} else {
+				diff = diffEntries(want, got)
+			}
 		} else if cl.Cmd == "untar" {
 			got, perr := parseTar(out)
 			var want []tarEntry
@@ -194,18 +271,21 @@ func runCLI(c Case) (o hx.Outcome) {
 				diff = diffEntries(want, got)
 			}
 		} else {
-			diff = diffBytes(pd.blob, out)
+			diff = diffBytes(want, out)
 		}
 		if diff != "" {
 			sig := "wrong-output"
 			if cl.Cmd == "untar" {
 				sig = "wrong-tree"
+			} else if strings.HasPrefix(diff, truncatedMark) {
+				sig = "truncated-output"
 			}
 			o.Fail("C03:cli:"+cl.Cmd+":"+sig, "exit status 0 but %s — %s", diff, where)
 		} else {
 			o.Class("result:good-data")
 		}
-		if demanded && effective {
+		// (a window of the blob need not touch the poisoned chunk)
+		if demanded && effective && variant == "whole" {
 			if obj, ok := storedP(victim.id); !ok || !decodesTo(obj, unc, victim.data) {
 				o.Fail("C03:cli:"+cl.Cmd+":cache-not-repaired", "the command succeeded but the poisoned cache entry was not replaced — %s", where)
 			} else {
@@ -215,10 +295,71 @@ func runCLI(c Case) (o hx.Outcome) {
 	}
 	if effective {
 		o.Class("effective")
+		// consumer classes count the runs in which the damaged chunk stood between the
+		// command and its output: the poisoned store is the only source
+		if cl.Role == "store" {
+			switch cl.Cmd {
+			case "cat":
+				o.Class("consumer:cli-cat:" + variant)
+				if toStdout {
+					o.Class("consumer:cli-cat:stdout")
+				} else {
+					o.Class("consumer:cli-cat:file")
+				}
+			case "untar":
+				o.Class("consumer:cli-untar:" + format)
+				if pd.victimMetaOnly {
+					o.Class("consumer:cli-untar:victim-chunk-metadata-only")
+					if format == "gnu-tar" {
+						o.Class("consumer:cli-untar:gnu-tar:victim-chunk-metadata-only")
+					}
+				}
+			case "extract":
+				o.Class("consumer:cli-extract")
+			}
+		}
 	}
 	o.Nontrivial = effective
 	o.Desc = map[string]any{"mode": mCLI, "cmd": cl.Cmd, "role": cl.Role, "no_repair": cl.NoRepair, "ssh": ssh, "format": fmtn, "corruption": kind, "what": detail,
 		"chunks": len(pd.items), "bytes": len(pd.blob), "victim_len": len(victim.data), "effective": effective, "failed": runErr != nil}
-	o.Key = fmt.Sprintf("cli/%s/%s/%v/%v/%s/%s", cl.Cmd, cl.Role, cl.NoRepair, ssh, fmtn, kind)
+	o.Key = fmt.Sprintf("cli/%s/%s/%s/%s/%v/%v/%v/%s/%s", cl.Cmd, format, variant, p.Tree, toStdout, cl.Role, cl.NoRepair || ssh, fmtn, kind)
 	return o
+}
+
+// snapshotDir lists an unpacked tree the way expectedEntries lists the model: names relative
+// to the root ("." first), kind, size and content hash of regular files, link targets; sorted
+// by name.
+func snapshotDir(root string) ([]tarEntry, error) {
+	var out []tarEntry
+	err := filepath.Walk(root, func(p string, info os.FileInfo, err error) error {
+		if err != nil {
+			return err
+		}
+		rel, rerr := filepath.Rel(root, p)
+		if rerr != nil {
+			return rerr
+		}
+		e := tarEntry{name: filepath.ToSlash(rel)}
+		switch {
+		case info.Mode()&os.ModeSymlink != 0:
+			e.typ = "symlink"
+			if e.link, err = os.Readlink(p); err != nil {
+				return err
+			}
+		case info.IsDir():
+			e.typ = "dir"
+		case info.Mode().IsRegular():
+			b, err := os.ReadFile(p)
+			if err != nil {
+				return err
+			}
+			e.typ, e.size, e.sum = "file", len(b), hx.Hash8(b)
+		default:
+			e.typ = "other:" + info.Mode().String()
+		}
+		out = append(out, e)
+		return nil
+	})
+	sort.Slice(out, func(i, j int) bool { return out[i].name < out[j].name })
+	return out, err
 }
